@@ -382,7 +382,7 @@ func (c *Conn) Write(b []byte) (int, error) {
 	p.tapFeed(w, b)
 	total := 0
 	for len(b) > 0 {
-		for p.used() >= p.capacity && !p.rst && !c.closed && !deadlinePassed(c.wdl) {
+		for p.used() >= p.capacity && !p.rst && !p.discard && !c.closed && !deadlinePassed(c.wdl) {
 			p.q.Wait(fmt.Sprintf("write link%d dir%d (peer not reading)", p.link.ID, p.dir))
 		}
 		if c.closed {
@@ -578,6 +578,8 @@ func (c *Conn) Close() error {
 	// net.cut fault is for.)
 	c.rd.discard = true
 	c.rd.buf = nil
+	c.rd.queue = nil // whatever was still in flight towards us (or held by a stall) is gone too
+	c.rd.inflight = 0
 	c.rd.q.WakeAll()
 	return nil
 }
